@@ -5,15 +5,42 @@ use regex::{Captures, Regex};
 use std::borrow::Cow;
 
 pub(crate) fn escape_html_body(s: &str) -> Cow<'_, str> {
+    escape_html_body_impl(s, false)
+}
+
+/// Escape a static segment that is followed by a `{{ ... }}` binding.
+pub(crate) fn escape_html_body_before_binding(s: &str) -> Cow<'_, str> {
+    escape_html_body_impl(s, true)
+}
+
+fn escape_html_body_impl(s: &str, before_binding: bool) -> Cow<'_, str> {
     lazy_static! {
         static ref REGEX: Regex = Regex::new("[<\"&]").unwrap();
     }
-    REGEX.replace_all(s, |caps: &Captures| match &caps[0] {
+    let ret = REGEX.replace_all(s, |caps: &Captures| match &caps[0] {
         "<" => "&lt;".to_owned(),
         "\"" => "&quot;".to_owned(),
         "&" => "&amp;".to_owned(),
         _ => unreachable!(),
-    })
+    });
+    // a `{` that would read as the start of `{{` must not be printed raw
+    if !ret.contains("{{") && !(before_binding && ret.ends_with('{')) {
+        return ret;
+    }
+    let bytes = ret.as_bytes();
+    let mut out = String::with_capacity(ret.len() + 8);
+    for (i, c) in ret.char_indices() {
+        if c == '{' {
+            let next_is_brace = bytes.get(i + 1) == Some(&b'{');
+            let is_last = i + 1 == bytes.len();
+            if next_is_brace || (before_binding && is_last) {
+                out.push_str("&#123;");
+                continue;
+            }
+        }
+        out.push(c);
+    }
+    Cow::Owned(out)
 }
 
 pub(crate) fn escape_html_quote(s: &str) -> Cow<'_, str> {
